@@ -61,44 +61,89 @@ fn b64(d: &[u8]) -> String {
 }
 
 // ------------------------------------------------------------------ Coq terms with named blobs
-/// Long byte strings (keys, their base64 text, signatures) are written once under a name; every other
-/// byte string is written as literal pieces around the names it contains, or as `set_nth i v NAME` when
-/// it is a named blob with one byte changed.  Pure compression: the term denotes exactly the bytes.
-#[derive(Clone, Default)]
-struct Names { v: Vec<(String, Vec<u8>)> }
-impl Names {
-    fn add(&mut self, name: &str, b: &[u8]) { if b.len() >= 24 && !self.v.iter().any(|(_, x)| x == b) { self.v.push((name.to_string(), b.to_vec())); } }
-    fn term(&self, b: &[u8]) -> String {
-        if b.len() < 24 { return coq_bytes(b); }
-        for (n, x) in &self.v {
-            if x.len() == b.len() {
-                let d: Vec<usize> = (0..b.len()).filter(|&i| x[i] != b[i]).collect();
-                if d.is_empty() { return n.clone(); }
-                if d.len() == 1 { return format!("(set_nth {}%nat {} {})", d[0], b[d[0]], n); }
-            }
+/// Case files for the glue groups.  Long byte strings (keys, their base64 text, signatures, signed
+/// messages) are written ONCE per file as `Definition sN : bytes := unpack <len> 0x<hex>.` (a hex
+/// number literal is several times cheaper for coqc to read than a list literal) and referred to by name;
+/// a byte string that contains named blobs is written as pieces around the names, one that differs from a
+/// named blob in one byte as `set_nth i v NAME`.  Pure compression: every term denotes exactly the bytes.
+struct Shards {
+    out: std::path::PathBuf, idx: usize,
+    known: Vec<(String, Vec<u8>)>,   // blobs with fixed names (identity keys), defined in a file on first use
+    defs: Vec<(String, Vec<u8>)>,    // defined in the current file
+    cases: Vec<(u64, String)>, auto: usize, max_cases: usize, max_blob_bytes: usize,
+}
+const BLOB_MIN: usize = 48;
+impl Shards {
+    fn new(out: &std::path::Path) -> Self { Shards { out: out.to_path_buf(), idx: 0, known: vec![], defs: vec![], cases: vec![], auto: 0, max_cases: 48, max_blob_bytes: 60_000 } }
+    fn lit(&mut self, b: &[u8]) -> String {
+        if b.len() < BLOB_MIN { return coq_bytes(b); }
+        let n = format!("s{}", self.auto); self.auto += 1;
+        self.defs.push((n.clone(), b.to_vec()));
+        n
+    }
+    fn use_known(&mut self, i: usize) -> String {
+        let (n, x) = self.known[i].clone();
+        if !self.defs.iter().any(|(m, _)| *m == n) { self.defs.push((n.clone(), x)); }
+        n
+    }
+    fn term(&mut self, b: &[u8]) -> String {
+        if b.len() < BLOB_MIN { return coq_bytes(b); }
+        // exact / one byte changed
+        let near = |x: &Vec<u8>| -> Option<Vec<usize>> {
+            if x.len() != b.len() { return None; }
+            let mut d = vec![];
+            for i in 0..b.len() { if x[i] != b[i] { d.push(i); if d.len() > 1 { return None; } } }
+            Some(d)
+        };
+        for i in 0..self.defs.len() {
+            if let Some(d) = near(&self.defs[i].1) { let n = self.defs[i].0.clone(); return if d.is_empty() { n } else { format!("(set_nth {}%nat {} {})", d[0], b[d[0]], n) }; }
         }
+        for i in 0..self.known.len() {
+            if let Some(d) = near(&self.known[i].1) { let n = self.use_known(i); return if d.is_empty() { n } else { format!("(set_nth {}%nat {} {})", d[0], b[d[0]], n) }; }
+        }
+        // pieces around contained blobs
         let mut pieces: Vec<String> = vec![];
-        let mut i = 0; let mut lit: Vec<u8> = vec![];
+        let mut i = 0; let mut lit: Vec<u8> = vec![]; let mut found = false;
         'outer: while i < b.len() {
-            for (n, x) in &self.v {
-                if b.len() - i >= x.len() && b[i..i + x.len()] == x[..] {
-                    if !lit.is_empty() { pieces.push(coq_bytes(&lit)); lit.clear(); }
-                    pieces.push(n.clone()); i += x.len(); continue 'outer;
+            for src in 0..2 {
+                let n = if src == 0 { self.defs.len() } else { self.known.len() };
+                for j in 0..n {
+                    let x = if src == 0 { &self.defs[j].1 } else { &self.known[j].1 };
+                    if x.len() >= BLOB_MIN && b.len() - i >= x.len() && b[i..i + x.len()] == x[..] {
+                        let xl = x.len();
+                        let name = if src == 0 { self.defs[j].0.clone() } else { self.use_known(j) };
+                        if !lit.is_empty() { let l = std::mem::take(&mut lit); pieces.push(self.lit(&l)); }
+                        pieces.push(name); i += xl; found = true; continue 'outer;
+                    }
                 }
             }
             lit.push(b[i]); i += 1;
         }
-        if !lit.is_empty() { pieces.push(coq_bytes(&lit)); }
+        if !found { return self.lit(b); }
+        if !lit.is_empty() { pieces.push(self.lit(&lit)); }
         if pieces.len() == 1 { pieces.pop().unwrap() } else { format!("({})", pieces.join(" ++ ")) }
     }
-}
-/// wraps a case term in `let` bindings for the case-local blobs
-fn with_lets(locals: &[(String, Vec<u8>)], body: String) -> String {
-    let mut s = String::new();
-    for (n, b) in locals { s.push_str(&format!("(let {} := {} in ", n, coq_bytes(b))); }
-    s.push_str(&body);
-    for _ in locals { s.push(')'); }
-    s
+    fn push(&mut self, id: u64, term: String) {
+        self.cases.push((id, term));
+        let blob: usize = self.defs.iter().map(|d| d.1.len()).sum();
+        if self.cases.len() >= self.max_cases || blob >= self.max_blob_bytes { self.flush(); }
+    }
+    fn flush(&mut self) {
+        if self.cases.is_empty() { return; }
+        use std::fmt::Write as _;
+        let mut s = String::from("From SV Require Import Lib.Base Model.Sig.\nLocal Open Scope N_scope.\n");
+        // chunks of at most 768 bytes: a longer hexadecimal literal can exhaust coqc's stack
+        for (n, b) in &self.defs {
+            let parts: Vec<String> = b.chunks(768).map(|c| format!("unpack {}%nat 0x{}", c.len(), hex::encode(c))).collect();
+            let _ = writeln!(s, "Definition {} : bytes := {}.", n, parts.join(" ++ "));
+        }
+        let _ = writeln!(s, "Definition cases : list (N * c08case) := [");
+        for (i, (id, t)) in self.cases.iter().enumerate() { let _ = writeln!(s, " ({}%N, {}){}", id, t, if i + 1 < self.cases.len() { ";" } else { "" }); }
+        let _ = writeln!(s, "].");
+        let _ = writeln!(s, "Eval vm_compute in (map fst (filter (fun c => negb (check_case (snd c))) cases), map fst (filter (fun c => negb (prop_case (snd c))) cases)).");
+        std::fs::write(self.out.join(format!("cases_b_{:03}.v", self.idx)), s).expect("write cases");
+        self.idx += 1; self.defs.clear(); self.cases.clear();
+    }
 }
 struct Tabs { h: Vec<(Vec<u8>, Vec<u8>)>, v: Vec<(Vec<u8>, Vec<u8>, Vec<u8>, V)>, b: Vec<(Vec<u8>, Option<Vec<u8>>)> }
 impl Tabs {
@@ -110,9 +155,9 @@ impl Tabs {
         Some(r)
     }
     fn b64(&mut self, text: &str, dec: Option<&[u8]>) { if !self.b.iter().any(|e| e.0 == text.as_bytes()) { self.b.push((text.as_bytes().to_vec(), dec.map(|d| d.to_vec()))); } }
-    fn coq_h(&self, n: &Names) -> String { coq_list(self.h.iter().map(|(m, d)| format!("({}, {})", n.term(m), coq_bytes(d)))) }
-    fn coq_v(&self, n: &Names) -> String { coq_list(self.v.iter().map(|(p, m, s, v)| format!("({}, {}, {}, {})", n.term(p), n.term(m), n.term(s), v.coq()))) }
-    fn coq_b(&self, n: &Names) -> String { coq_list(self.b.iter().map(|(t, d)| format!("({}, {})", n.term(t), match d { Some(d) => format!("Some {}", n.term(d)), None => "None".into() }))) }
+    fn coq_h(&self, n: &mut Shards) -> String { let v: Vec<String> = self.h.iter().map(|(m, d)| format!("({}, {})", n.term(m), coq_bytes(d))).collect(); coq_list(v) }
+    fn coq_v(&self, n: &mut Shards) -> String { let v: Vec<String> = self.v.iter().map(|(p, m, s, v)| { let (a, b, c) = (n.term(p), n.term(m), n.term(s)); format!("({}, {}, {}, {})", a, b, c, v.coq()) }).collect(); coq_list(v) }
+    fn coq_b(&self, n: &mut Shards) -> String { let v: Vec<String> = self.b.iter().map(|(t, d)| { let a = n.term(t); let b = match d { Some(d) => format!("Some {}", n.term(d)), None => "None".into() }; format!("({}, {})", a, b) }).collect(); coq_list(v) }
 }
 
 // ------------------------------------------------------------------ identities
@@ -131,14 +176,14 @@ fn derive(master: &[u8; 32], path: &str) -> Id {
     Id { kind: 3, how: format!("derive {}", path), pk: k.public_key.as_bytes().to_vec(), sk: k.secret_key.as_bytes().to_vec() }
 }
 
-struct Cx { w: CaseWriter, sum: Summary, next: u64, names: Names, rng: Rng, thorough: bool }
+struct Cx { w: CaseWriter, sh: Shards, glue: bool, sum: Summary, next: u64, rng: Rng, thorough: bool }
 impl Cx {
     fn push(&mut self, group: &str, term: String, mut desc: Value, tags: &[&str]) -> u64 {
         let id = self.next; self.next += 1;
         desc["group"] = json!(group);
         if !tags.is_empty() { desc["tags"] = json!(tags); }
         self.sum.count(&format!("group:{}", group));
-        self.w.push(id, term);
+        if self.glue { self.sh.push(id, term) } else { self.w.push(id, term) }
         self.sum.case(id, desc);
         self.sum.evaluations += 1;
         id
@@ -347,13 +392,12 @@ fn g_ip(cx: &mut Cx, ids: &[Id]) {
                     t.hash(&msg);
                     t.verify(&n.pk, &msg, &n.sig);
                     let obs = node_verify(&n);
-                    let mut names = cx.names.clone();
-                    let locals = vec![("sg".to_string(), n.sig.clone())];
-                    names.add("sg", &n.sig);
-                    let term = format!("CIp {} (mkNode {} {} {} {} {} {}) {} {} {}", coq_bool(is_genuine), coq_bytes(&n.id), coq_bytes(&n.ip), names.term(&n.pk), names.term(&n.sig), n.ts, coq_bytes(&n.salt), t.coq_h(&names), t.coq_v(&names), obs.coq());
+                    let sh = &mut cx.sh;
+                    let (tpk, tsig, th, tv) = (sh.term(&n.pk), sh.term(&n.sig), t.coq_h(sh), t.coq_v(sh));
+                    let term = format!("CIp {} (mkNode {} {} {} {} {} {}) {} {} {}", coq_bool(is_genuine), coq_bytes(&n.id), coq_bytes(&n.ip), tpk, tsig, n.ts, coq_bytes(&n.salt), th, tv, obs.coq());
                     cx.sum.count(&format!("ip:{}:{:?}", if is_genuine { "genuine" } else { "altered" }, obs));
                     let tags = if is_genuine { id.tags() } else { vec![] };
-                    cx.push("ipnode", with_lets(&locals, term), json!({"family": if v6 { "IPv6NodeID" } else { "IPv4NodeID" }, "signer": format!("id{} ({})", ii, id.how), "round": round, "alteration": what,
+                    cx.push("ipnode", term, json!({"family": if v6 { "IPv6NodeID" } else { "IPv4NodeID" }, "signer": format!("id{} ({})", ii, id.how), "round": round, "alteration": what,
                         "ip": hex::encode(&n.ip), "salt": hex::encode(&n.salt), "timestamp_secs": n.ts, "node_id": hex::encode(&n.id), "verify": format!("{:?}", obs)}), &tags);
                 }
             }
@@ -371,8 +415,9 @@ fn wait_for_quiet_second() -> u64 {
 }
 #[derive(Clone)]
 struct PK { id: String, text: String, from_off: Option<i64>, until_off: Option<i64> } // offsets relative to "now"; None = 0 (unset)
-fn coq_keys(keys: &[(PK, u64, u64)], names: &Names) -> String {
-    coq_list(keys.iter().map(|(k, f, u)| format!("(mkPinned {} {} {} {})", coq_bytes(k.id.as_bytes()), names.term(k.text.as_bytes()), f, u)))
+fn coq_keys(keys: &[(PK, u64, u64)], names: &mut Shards) -> String {
+    let v: Vec<String> = keys.iter().map(|(k, f, u)| format!("(mkPinned {} {} {} {})", coq_bytes(k.id.as_bytes()), names.term(k.text.as_bytes()), f, u)).collect();
+    coq_list(v)
 }
 fn g_upd(cx: &mut Cx, ids: &[Id], rt: &tokio::runtime::Runtime) {
     let dir = tempfile::tempdir().expect("tempdir");
@@ -464,14 +509,10 @@ fn g_upd(cx: &mut Cx, ids: &[Id], rt: &tokio::runtime::Runtime) {
                         cx.sum.discarded_ambiguous += 1; break;
                     }
                     let mut t = Tabs::new();
-                    let mut names = cx.names.clone();
-                    let mut locals: Vec<(String, Vec<u8>)> = vec![];
                     let sdec: Option<Vec<u8>> = if sc.sig.starts_with('!') { None } else {
                         // the harness encoded it itself: decode = the bytes it encoded
                         Some(if sc.sig == sigt { sig.clone() } else { unb64(&sc.sig) })
                     };
-                    if let Some(d) = &sdec { locals.push(("sg".into(), d.clone())); names.add("sg", d); }
-                    locals.push(("sgt".into(), sc.sig.as_bytes().to_vec())); names.add("sgt", sc.sig.as_bytes());
                     t.b64(&sc.sig, sdec.as_deref());
                     for k in &keys {
                         let kd: Option<Vec<u8>> = if k.0.text.starts_with('*') { None } else { Some(unb64(&k.0.text)) };
@@ -479,14 +520,16 @@ fn g_upd(cx: &mut Cx, ids: &[Id], rt: &tokio::runtime::Runtime) {
                         if let (Some(kd), Some(sd)) = (&kd, &sdec) { t.verify(kd, &sc.msg, sd); }
                     }
                     if sc.sum.is_some() { t.hash(&sc.msg); }
+                    let sh = &mut cx.sh;
+                    let (tk, tsg, tb, th, tv) = (coq_keys(&keys, sh), sh.term(sc.sig.as_bytes()), t.coq_b(sh), t.coq_h(sh), t.coq_v(sh));
                     let term = match &sc.sum {
-                        None => format!("CUpdSig {} {} {} {} {} {} {} {} {}", coq_bool(sc.genuine), coq_keys(&keys, &names), now, coq_bytes(sc.kid.as_bytes()), coq_bytes(&sc.msg), names.term(sc.sig.as_bytes()), t.coq_b(&names), t.coq_v(&names), term_obs),
-                        Some(sum) => format!("CUpdFile {} {} {} {} {} {} {} {} {} {} {}", coq_bool(sc.genuine), coq_keys(&keys, &names), now, coq_bytes(&sc.msg), coq_bytes(sum.as_bytes()), coq_bytes(sc.kid.as_bytes()), names.term(sc.sig.as_bytes()), t.coq_b(&names), t.coq_h(&names), t.coq_v(&names), term_obs),
+                        None => format!("CUpdSig {} {} {} {} {} {} {} {} {}", coq_bool(sc.genuine), tk, now, coq_bytes(sc.kid.as_bytes()), coq_bytes(&sc.msg), tsg, tb, tv, term_obs),
+                        Some(sum) => format!("CUpdFile {} {} {} {} {} {} {} {} {} {} {}", coq_bool(sc.genuine), tk, now, coq_bytes(&sc.msg), coq_bytes(sum.as_bytes()), coq_bytes(sc.kid.as_bytes()), tsg, tb, th, tv, term_obs),
                     };
                     let tags = if sc.genuine { id.tags() } else { vec![] };
                     cx.sum.count(&format!("upd:{}:{}", if sc.sum.is_some() { "verify_file" } else { "verify_signature" }, obs_text));
                     if sc.window { cx.sum.count("upd:window-edge"); }
-                    let cid = cx.push("update", with_lets(&locals, term), json!({"entry": if sc.sum.is_some() { "SignatureVerifier::verify_file" } else { "SignatureVerifier::verify_signature" },
+                    let cid = cx.push("update", term, json!({"entry": if sc.sum.is_some() { "SignatureVerifier::verify_file" } else { "SignatureVerifier::verify_signature" },
                         "signer": format!("id{} ({})", ii, id.how), "round": round, "scenario": sc.what, "now": now, "key_id": sc.kid, "contents": hex::encode(&sc.msg), "expected_sha256": sc.sum,
                         "pinned": keys.iter().map(|k| json!({"key_id": k.0.id, "valid_from": k.1, "valid_until": k.2, "public_key": format!("{}...", &k.0.text[..k.0.text.len().min(16)])})).collect::<Vec<_>>(), "result": obs_text}), &tags);
                     if unexpected { cx.sum.violation(cid, "update verifier returned an error kind outside {ChecksumMismatch, NoValidKey, SignatureVerification}", &[], json!({"result": obs_text})); }
@@ -518,12 +561,12 @@ impl Tree {
             Tree::Composite(all, l) => { let v: Vec<Box<dyn WriteAuth>> = l.iter().map(|x| x.build()).collect(); if *all { Box::new(CompositeWriteAuth::all(v)) } else { Box::new(CompositeWriteAuth::any(v)) } }
         }
     }
-    fn coq(&self, n: &Names) -> String {
+    fn coq(&self, n: &mut Shards) -> String {
         match self {
             Tree::Single(k) => format!("(WSingle {})", n.term(k)),
-            Tree::Delegated(ks) => format!("(WDelegated {})", coq_list(ks.iter().map(|k| n.term(k)))),
-            Tree::Threshold(t, tot, ks) => format!("(WThreshold {} {} {})", t, tot, coq_list(ks.iter().map(|k| n.term(k)))),
-            Tree::Composite(all, l) => format!("(WComposite {} {})", coq_bool(*all), coq_list(l.iter().map(|x| x.coq(n)))),
+            Tree::Delegated(ks) => { let v: Vec<String> = ks.iter().map(|k| n.term(k)).collect(); format!("(WDelegated {})", coq_list(v)) }
+            Tree::Threshold(t, tot, ks) => { let v: Vec<String> = ks.iter().map(|k| n.term(k)).collect(); format!("(WThreshold {} {} {})", t, tot, coq_list(v)) }
+            Tree::Composite(all, l) => { let v: Vec<String> = l.iter().map(|x| x.coq(n)).collect(); format!("(WComposite {} {})", coq_bool(*all), coq_list(v)) }
         }
     }
     fn keys(&self, out: &mut Vec<Vec<u8>>) {
@@ -538,18 +581,36 @@ impl Tree {
             Tree::Composite(all, l) => format!("{}[{}]", if *all { "All" } else { "Any" }, l.iter().map(|x| x.show(ids)).collect::<Vec<_>>().join(", ")),
         }
     }
-    /// does the count-only placeholder disagree with "t distinct listed keys with a valid signature" on some threshold node?
-    fn threshold_gap(&self, rec: &[u8], sigs: &[Vec<u8>]) -> bool {
+    /// The tree's verdict from the real leaf verdicts, with the threshold nodes decided either by the
+    /// count-only placeholder (`spec = false`) or by "t distinct listed keys have a valid signature among
+    /// those presented" (`spec = true`).  Used ONLY to tag the recorded finding: a case is exempt when the
+    /// two rules differ in acceptance and the implementation did exactly what the placeholder predicts.
+    fn eval(&self, rec: &[u8], sigs: &[Vec<u8>], spec: bool) -> V {
+        let leaf = |k: &Vec<u8>, s: &Vec<u8>| -> V { if k.len() != PUB { V::E } else if s.len() != SIGL { V::F } else { vreal(k, rec, s).unwrap_or(V::E) } };
         match self {
+            Tree::Single(k) => match sigs.first() { None => V::F, Some(s) => leaf(k, s) },
+            Tree::Delegated(ks) => match sigs.first() {
+                None => V::F,
+                Some(s) => if ks.is_empty() || s.len() != SIGL { V::F } else if ks.iter().any(|k| k.len() == PUB && leaf(k, s) == V::T) { V::T } else { V::F },
+            },
             Tree::Threshold(t, n, ks) => {
-                let code = sigs.len() >= *t && sigs.len() <= *n;
+                if !spec { return if sigs.len() >= *t && sigs.len() <= *n { V::T } else { V::F }; }
                 let mut distinct: Vec<&Vec<u8>> = vec![];
                 for k in ks { if !distinct.contains(&k) { distinct.push(k); } }
-                let valid = distinct.iter().filter(|k| sigs.iter().any(|s| vreal(k, rec, s) == Some(V::T))).count();
-                code != (valid >= *t)
+                let valid = distinct.iter().filter(|k| k.len() == PUB && sigs.iter().any(|s| s.len() == SIGL && vreal(k, rec, s) == Some(V::T))).count();
+                if valid >= *t { V::T } else { V::F }
             }
-            Tree::Composite(_, l) => l.iter().any(|x| x.threshold_gap(rec, sigs)),
-            _ => false,
+            Tree::Composite(all, l) => {
+                for x in l {
+                    match (x.eval(rec, sigs, spec), *all) {
+                        (V::E, _) => return V::E,
+                        (V::F, true) => return V::F,
+                        (V::T, false) => return V::T,
+                        _ => {}
+                    }
+                }
+                if *all { V::T } else { V::F }
+            }
         }
     }
 }
@@ -560,15 +621,16 @@ fn auth_case(cx: &mut Cx, rt: &tokio::runtime::Runtime, ids: &[Id], what: &str, 
     let mut t = Tabs::new();
     let mut keys = vec![]; tree.keys(&mut keys);
     for k in &keys { for s in sigs { t.verify(k, rec, s); } }
-    let mut names = cx.names.clone();
-    let mut locals = vec![];
-    for (i, s) in sigs.iter().enumerate() { if s.len() >= 24 && !locals.iter().any(|(_, b): &(String, Vec<u8>)| b == s) && names.term(s).starts_with('[') { let n = format!("sg{}", i); locals.push((n.clone(), s.clone())); names.add(&n, s); } }
-    let term = format!("CAuth {} {} {} {} {}", tree.coq(&names), coq_bytes(rec), coq_list(sigs.iter().map(|s| names.term(s))), t.coq_v(&names), obs.coq());
-    let gap = tree.threshold_gap(rec, sigs);
+    let sh = &mut cx.sh;
+    let ts: Vec<String> = sigs.iter().map(|s| sh.term(s)).collect();
+    let (tt, tv) = (tree.coq(sh), t.coq_v(sh));
+    let term = format!("CAuth {} {} {} {} {}", tt, coq_bytes(rec), coq_list(ts), tv, obs.coq());
+    let (by_code, by_spec) = (tree.eval(rec, sigs, false), tree.eval(rec, sigs, true));
+    let gap = (by_code == V::T) != (by_spec == V::T) && obs == by_code;
     let tags: Vec<&str> = if gap { vec![TAG_THR] } else { vec![] };
     cx.sum.count(&format!("auth:{}:{:?}", a.auth_type(), obs));
     if gap { cx.sum.count("auth:threshold-placeholder-differs-from-spec"); }
-    cx.push("writeauth", with_lets(&locals, term), json!({"scenario": what, "auth": tree.show(ids), "record": hex::encode(rec),
+    cx.push("writeauth", term, json!({"scenario": what, "auth": tree.show(ids), "record": hex::encode(rec),
         "signatures": sigs.iter().map(|s| format!("{} bytes", s.len())).collect::<Vec<_>>(), "verify": format!("{:?}", obs)}), &tags);
 }
 fn g_auth(cx: &mut Cx, ids: &[Id], rt: &tokio::runtime::Runtime) {
@@ -687,26 +749,22 @@ fn main() {
     let rt = tokio::runtime::Builder::new_current_thread().enable_all().build().expect("runtime");
     let rng = Rng::new(args.seed);
     // first the identities: their keys become named blobs of every case file
-    let mut cx = Cx { w: CaseWriter::new(&args.out, "cases_a", "From SV Require Import Lib.Base Model.Sig.\nLocal Open Scope N_scope.", "c08case", "check_case", "prop_case", 200), sum, next: 1, names: Names::default(), rng, thorough: args.thorough() };
+    let mut cx = Cx { w: CaseWriter::new(&args.out, "cases_a", "From SV Require Import Lib.Base Model.Sig.\nLocal Open Scope N_scope.", "c08case", "check_case", "prop_case", 400),
+        sh: Shards::new(&args.out), glue: false, sum, next: 1, rng, thorough: args.thorough() };
     g_len(&mut cx);
     let ids = g_ident(&mut cx);
     g_prim(&mut cx, &ids);
     cx.w.flush();
-    let mut header = String::from("From SV Require Import Lib.Base Model.Sig.\nLocal Open Scope N_scope.\n");
-    let mut names = Names::default();
+    // the identities' keys (and their base64 text) get fixed names in the glue case files
     for (i, id) in ids.iter().enumerate() {
-        header.push_str(&format!("Definition K{} : bytes := {}.\n", i, coq_bytes(&id.pk)));
-        names.add(&format!("K{}", i), &id.pk);
-        let t = b64(&id.pk);
-        header.push_str(&format!("Definition B{} : bytes := {}.\n", i, coq_bytes(t.as_bytes())));
-        names.add(&format!("B{}", i), t.as_bytes());
+        cx.sh.known.push((format!("K{}", i), id.pk.clone()));
+        cx.sh.known.push((format!("B{}", i), b64(&id.pk).into_bytes()));
     }
-    let (sum, next, rng, thorough) = (cx.sum, cx.next, cx.rng, cx.thorough);
-    let mut cx = Cx { w: CaseWriter::new(&args.out, "cases_b", &header, "c08case", "check_case", "prop_case", 16), sum, next, names, rng, thorough };
+    cx.glue = true;
     g_ip(&mut cx, &ids);
     g_upd(&mut cx, &ids, &rt);
     g_auth(&mut cx, &ids, &rt);
-    cx.w.flush();
+    cx.sh.flush();
     let mut sum = cx.sum;
     sum.distinct_nontrivial = sum.evaluations;
     sum.rule = "one case = one call of a real entry point (sign/verify of one identity, one tampered verify, one sweep, one node-id / update / write-auth verification) on distinct inputs; sweeps count once".into();
